@@ -349,7 +349,7 @@ class Padding(WidgetDecoration[WrappedWidget], typing.Generic[WrappedWidget]):
             if size:
                 maxcol = size[0]
                 maxwidth = max(maxcol - self.left - self.right, self.min_width or 0)
-                (width, _ignore) = self._original_widget.pack((maxwidth,), focus=focus)
+                (width, _ignore) = self._original_widget.pack((maxwidth, *size[1:]), focus=focus)
             else:
                 (width, _ignore) = self._original_widget.pack((), focus=focus)
                 maxcol = width + self.left + self.right
